@@ -2,7 +2,7 @@ CONSTANTS
   Depths = {1, 2, 3, 4}
   Msgs = {"a", "b"}
 INIT Init
-NEXT Next
+NEXT MCNext
 INVARIANTS TypeOK ForwardSecure CanSign FutureDerivable LiveShape PeriodRange VerifyExactlyOwnPeriod ExhaustedIffLast
 PROPERTIES UpdateFailsExactlyAtEnd UpdateCountsPeriods RootConstant
 CHECK_DEADLOCK FALSE
